@@ -110,6 +110,10 @@ class SimDisk:
         self.handles.append(h)
         return h
 
+    def handle_from(self, image, name='tmp.mid'):
+        self.files[name] = bytearray(image)
+        return self.handle(name, 'rb')
+
     def unclosed(self):
         return [h.name for h in self.handles if not h.closed]
 
@@ -126,7 +130,7 @@ class SMFError(Exception):
 
 def _vlq(data, pos):
     val = 0
-    for _ in range(4):
+    for _ in range(5):      # the format allows 4 bytes; one more is tolerated (judging that is C08's business)
         if pos >= len(data):
             raise SMFError('truncated variable-length quantity')
         b = data[pos]
@@ -134,7 +138,7 @@ def _vlq(data, pos):
         val = (val << 7) | (b & 0x7F)
         if b < 0x80:
             return val, pos
-    raise SMFError('variable-length quantity longer than 4 bytes')
+    raise SMFError('variable-length quantity longer than 5 bytes')
 
 
 def walk_smf(image):
